@@ -261,12 +261,13 @@ def reaching_defs(fn: Fn, use: ast.AST, var: str) -> List[ast.AST]:
         dn = fn.nid(d)
         if dn is None or un is None:
             continue
-        others = {fn.nid(x) for x in defs if x is not d} - {dn}
+        others = {fn.nid(x) for x in defs if x is not d} - {dn, un}
         starts = [m for m, _ in fn.cfg.succ[dn]]
         reach = set()
         for m in starts:
             if m not in others:
                 reach |= fn.cfg.reachable(m, avoid=others)
-        if un in reach or un == dn:
+        inside = use is d or any(x is use for x in ast.walk(d))
+        if un in reach or (un == dn and not inside):
             out.append(d)
     return out
